@@ -130,12 +130,15 @@ func run(c *vk.Ctx, can *rig.Canary, sc scen, idx int) {
 	var maxGap, minHbGap time.Duration
 	minHbGap = time.Hour
 	prev := time.Time{}
+	var lastGap time.Duration
 	for i, fr := range frames {
 		if fr.Type == "A" || prev.IsZero() {
 			prev = fr.T
 			continue
 		}
 		gap := fr.T.Sub(prev)
+		prevGap := lastGap
+		lastGap = gap
 		if gap > maxGap {
 			maxGap = gap
 		}
@@ -148,7 +151,13 @@ func run(c *vk.Ctx, can *rig.Canary, sc scen, idx int) {
 				if gap < minHbGap {
 					minHbGap = gap
 				}
-				if gap < N-20*time.Millisecond-3*jit {
+				// A Heartbeat whose timer expired (N after the message before the previous one) while an
+				// application send was in flight is concurrent with that send: either wire order is legitimate.
+				concurrentWithSend := gap <= 50*time.Millisecond+3*jit && i >= 2 && prevGap >= N-20*time.Millisecond-3*jit
+				if concurrentWithSend {
+					c.Count("heartbeats_concurrent_with_a_send(not judged)", 1)
+				}
+				if gap < N-20*time.Millisecond-3*jit && !concurrentWithSend {
 					c.Violate(fmt.Sprintf("C08/heartbeat-too-early/%s/N=%d/%s", sc.role, sc.n, sc.pattern), fmt.Sprintf("%s: unsolicited Heartbeat (#%d, 34=%s) only %v after the previous outbound message; N = %v", desc, i, fr.Seq, gap.Round(time.Millisecond), N), replay)
 				}
 			}
